@@ -101,6 +101,7 @@ def bfs(machine, max_depth=None, jobs=None, repo_root="/repo", validate_merges=1
         res.violations.setdefault(locus, {"history": [], "detail": jsonable(detail)})
         res.violation_count += 1
     seen = {stable_hash(machine.canon(init)): ()}
+    seen_obs = {}
     res.states = 1
     frontier = [()]
     depth = 0
@@ -139,11 +140,19 @@ def bfs(machine, max_depth=None, jobs=None, repo_root="/repo", validate_merges=1
                     continue      # crashed transition: no successor state
                 if hh not in seen:
                     seen[hh] = new_hist
+                    seen_obs[hh] = obs
                     nxt.append(new_hist)
                     if len(res.samples) < 5:
                         res.samples.append({"history": jsonable(list(new_hist))})
                 else:
                     res.merges += 1
+                    locus = getattr(machine, "merge_obs_locus", None)
+                    if locus is not None and obs != seen_obs.get(hh):
+                        # the machine declares that the observation is a function of the state reached:
+                        # two histories reaching the same state must have produced the same last observation
+                        res.violation_count += 1
+                        if locus not in res.violations:
+                            res.violations[locus] = {"history": list(new_hist), "detail": jsonable({"other_history": list(seen[hh])})}
                     if validate_merges is None or len(pending_bisim) < validate_merges:
                         if seen[hh] != new_hist:
                             pending_bisim.append((new_hist, seen[hh]))
